@@ -69,10 +69,12 @@ class FnBlock:
         self.heap = "none"
         self.ret = "r"
         self.rewrites = []      # (kind, from, to, optional)
+        self.closures = []      # (head, annotated head): R6 closure annotation, body wrapped in a block
         self.spec = []
         self.loops = {}
         self.splices = []       # (where, pattern, lines)
         self.extern_body = False
+        self.optional = False   # the function need not exist in the repository (e.g. an overridden default trait method)
         self.nolabel = False
         self.novac = False
         self.trait_impl = False
@@ -165,6 +167,8 @@ def parse_template(lines, flavour):
             cur.extern_body = True
         elif s == "//@nolabel":
             cur.nolabel = True
+        elif s == "//@optional":
+            cur.optional = True
         elif s == "//@novac":
             cur.novac = True
         elif s == "//@trait-impl":
@@ -175,6 +179,11 @@ def parse_template(lines, flavour):
             if not m:
                 raise ExtractError("bad rewrite at %s" % origin)
             cur.rewrites.append(("sig" if m.group(1) else "all", m.group(3), m.group(4), {"": False, "?": True, "-all": "all"}[m.group(2)]))
+        elif s.startswith("//@closure "):
+            m = re.match(r"//@closure\s+`(.*?)`\s*=>\s*`(.*)`\s*$", s)
+            if not m:
+                raise ExtractError("bad closure directive at %s" % origin)
+            cur.closures.append((m.group(1), m.group(2)))
         elif s.startswith("//@regionsig "):
             cur.regionsig = s[len("//@regionsig "):]
         elif s.startswith("//@region-prelude "):
@@ -199,6 +208,9 @@ def parse_template(lines, flavour):
         elif s.startswith("//@loop-end "):
             sink = []
             cur.splices.append(("loop-end", int(s.split()[1]), sink))
+        elif s.startswith("//@loop-start "):
+            sink = []
+            cur.splices.append(("loop-start", int(s.split()[1]), sink))
         elif s.startswith("//@after-loop "):
             sink = []
             cur.splices.append(("after-loop", int(s.split()[1]), sink))
@@ -494,6 +506,116 @@ def apply_R4(body, heap_methods, stats, fid):
     return body, [dict(recv=c["recv"], excl=c["excl"], kind=c["kind"]) for c in chains]
 
 
+RUST_KW = set("""as break const continue crate else enum extern false fn for if impl in let loop match mod move mut pub ref return self Self
+static struct super trait true type unsafe use where while async await dyn""".split())
+TOK_RX = re.compile(r"[A-Za-z_]\w*|\d[\w.]*|\"(?:[^\"\\]|\\.)*\"|'(?:[^'\\]|\\.)'|\S")
+
+
+def rust_tokens(text):
+    return TOK_RX.findall(mask_comments(text))
+
+
+def mask_comments(text):
+    text = re.sub(r"/\*.*?\*/", " ", text, flags=re.S)
+    return re.sub(r"//[^\n]*", " ", text)
+
+
+def rename_map(old_text, new_text, body_off=0):
+    """Local identifiers that were renamed between the baseline text of a function and its current text (R19).
+    Returns (base, scoped): `base` maps old -> new for identifiers renamed the same way everywhere; `scoped` maps a loop
+    ordinal (numbering of find_loops on the new body) to the renames that hold inside that loop only (a shadowing loop
+    variable renamed differently from the outer variable of the same name).  A rename is accepted when the aligned token
+    sequences pair the two names, the old name no longer occurs in the new text, the new name did not occur in the old
+    text, and neither is a keyword or a method / field name (preceded by `.` or `::`)."""
+    import difflib
+    ta = [(mm.group(0), mm.start()) for mm in TOK_RX.finditer(mask_comments(old_text))]
+    tb = [(mm.group(0), mm.start()) for mm in TOK_RX.finditer(mask_comments(new_text))]
+    a = [t for t, _ in ta]
+    b = [t for t, _ in tb]
+    if a == b:
+        return {}, {}
+    try:
+        loops = find_loops(mask(new_text[body_off:]))
+    except ExtractError:
+        loops = []
+
+    def scope_of(off):
+        o = off - body_off
+        best = 0
+        for k, lp in enumerate(loops, 1):
+            inside = lp["hdr_end"] < o < lp["body_close"]
+            if not inside and lp["kw"] == "for" and lp["start"] <= o <= lp["hdr_end"]:
+                mi = re.search(r"\bin\b", new_text[body_off + lp["start"]:body_off + lp["hdr_end"]])
+                inside = bool(mi) and o < lp["start"] + mi.start()
+            if inside:
+                best = k        # loops are in text order, so the last hit is the innermost
+        return best
+
+    sm = difflib.SequenceMatcher(None, a, b, autojunk=False)
+    occ = {}   # old -> {scope: set(new)}
+    for tag, i1, i2, j1, j2 in sm.get_opcodes():
+        if tag != "replace" or (i2 - i1) != (j2 - j1):
+            continue
+        for k in range(i2 - i1):
+            o, n = a[i1 + k], b[j1 + k]
+            if o == n:
+                continue
+            if not (re.match(r"[A-Za-z_]\w*$", o) and re.match(r"[A-Za-z_]\w*$", n)) or o in RUST_KW or n in RUST_KW:
+                continue
+            prev = a[i1 + k - 1] if i1 + k > 0 else ""
+            if prev in (".", ":"):
+                continue
+            occ.setdefault(o, {}).setdefault(scope_of(tb[j1 + k][1]), set()).add(n)
+    sa, sb = set(a), set(b)
+    base, scoped = {}, {}
+    used_new = {}
+    for o, by_scope in occ.items():
+        news = set().union(*by_scope.values())
+        if o in sb or any(n in sa for n in news) or any(len(v) != 1 for v in by_scope.values()):
+            continue
+        if len(news) == 1:
+            base[o] = next(iter(news))
+        else:
+            # the most frequent outermost choice is the base; the others are scoped to their loops
+            outer = min(by_scope)
+            base[o] = next(iter(by_scope[outer]))
+            for sc, v in by_scope.items():
+                n = next(iter(v))
+                if n != base[o]:
+                    scoped.setdefault(sc, {})[o] = n
+    # two old names must not collapse into one new name
+    vals = list(base.values())
+    for o in [o for o, n in base.items() if vals.count(n) != 1]:
+        del base[o]
+    return base, scoped
+
+
+def loop_chain(loops, pos):
+    """ordinals of the loops whose body contains offset pos, innermost first"""
+    ch = [k for k, lp in enumerate(loops, 1) if lp["hdr_end"] < pos <= lp["body_close"]]
+    return list(reversed(ch))
+
+
+def apply_scoped(lines, scoped, chain, base):
+    """inside the loops of `chain` the base rename of a shadowed name is replaced by the loop's own rename"""
+    for k in chain:
+        mp = scoped.get(k)
+        if not mp:
+            continue
+        # the annotation text was already renamed with `base`; redo those names with the scoped choice
+        inv = {base.get(o, o): n for o, n in mp.items()}
+        lines = apply_renames(lines, inv)
+        break
+    return lines
+
+
+def apply_renames(lines, rmap):
+    if not rmap:
+        return lines
+    rx = re.compile(r"(?<![\w.])(%s)\b" % "|".join(map(re.escape, sorted(rmap, key=len, reverse=True))))
+    return [rx.sub(lambda mm: rmap[mm.group(1)], l) for l in lines]
+
+
 def apply_R5(text, stats):
     rx = re.compile(r"for\s*\(\s*(\w+)\s*,\s*(\w+)\s*\)\s*in\s+([\w\.]+?)\s*\.\s*iter\s*\(\s*\)\s*\.\s*enumerate\s*\(\s*\)\s*\{")
 
@@ -711,7 +833,7 @@ def rewrite_sig(sig, blk, heap_param):
     return out
 
 
-def generate(template_path, flavour, repo="/repo", vacuity=False, rules=None, bare=None):
+def generate(template_path, flavour, repo="/repo", vacuity=False, rules=None, bare=None, base_texts=None):
     fl = FLAVOURS[flavour]
     lines = preprocess(template_path, flavour)
     items = parse_template(lines, flavour)
@@ -748,15 +870,67 @@ def generate(template_path, flavour, repo="/repo", vacuity=False, rules=None, ba
             ex = extract_region(b.file, src, b.region[0], b.region[1], b.region[2])
             stats_r11 = True
         else:
-            ex = extract_fn(b.file, src, b.impl, b.name)
+            try:
+                ex = extract_fn(b.file, src, b.impl, b.name)
+            except ExtractError:
+                if b.optional:
+                    continue
+                raise
             stats_r11 = False
         sig, body = ex["sig"], ex["body"]
         h = text_hash(sig, body)
         stats = {}
+        real_text = sig + "\n" + body
+        # R19: locals renamed with respect to the baseline text are renamed in the proof annotations as well
+        rmap, rscoped = {}, {}
+        if base_texts is not None:
+            old_text = base_texts.get("%s/%s/%s" % (os.path.splitext(os.path.basename(template_path))[0], flavour, b.id))
+            if old_text is not None and old_text != real_text:
+                rmap, rscoped = rename_map(old_text, real_text, body_off=len(sig) + 1)
+        if rmap:
+            stats["R19"] = len(rmap) + sum(len(v) for v in rscoped.values())
+            b.spec = apply_renames(b.spec, rmap)
+            b.loops = {n: apply_renames(ls, rmap) for n, ls in b.loops.items()}
+            nsp = []
+            for where, pat, slines in b.splices:
+                if isinstance(pat, tuple):
+                    pat = (apply_renames(list(pat[0]), rmap), pat[1], pat[2])
+                elif isinstance(pat, list):
+                    pat = apply_renames(pat, rmap)
+                nsp.append((where, pat, apply_renames(slines, rmap)))
+            b.splices = nsp
+            b.rewrites = [(sc, apply_renames([frm], rmap)[0], apply_renames([to], rmap)[0], opt) for sc, frm, to, opt in b.rewrites]
+            b.closures = [(apply_renames([hd], rmap)[0], apply_renames([an], rmap)[0]) for hd, an in b.closures]
         # R1 attributes inside bodies do not occur; doc comments were dropped by extraction
         # R3: nothing to do inside bodies
         # function specific rewrites first (they are written against the /repo text)
         rewrites_lost = []
+        # R6: annotate a closure head and wrap its (unchanged) body expression in a block
+        for head, ann in b.closures:
+            rxh = re.compile(pat_to_regex(head))
+            mb = mask(body)
+            hits = list(rxh.finditer(mb))
+            if len(hits) != 1:
+                rewrites_lost.append("closure `%s` matched %d times" % (head, len(hits)))
+                continue
+            hm = hits[0]
+            i = hm.end()
+            depth = 0
+            j = i
+            while j < len(mb):
+                c = mb[j]
+                if c in "([{":
+                    j = match_close(mb, j) + 1
+                    continue
+                if c in ")]}" or (c == "," and depth == 0):
+                    break
+                j += 1
+            expr = body[i:j].strip()
+            if expr.startswith("{"):
+                body = body[:hm.start()] + ann + " " + body[i:]
+            else:
+                body = body[:hm.start()] + ann + " { " + expr + " }" + body[j:]
+            stats["R6"] = stats.get("R6", 0) + 1
         for scope, frm, to, optional in b.rewrites:
             rx = re.compile(pat_to_regex(frm))
             tgt = sig if scope == "sig" else None
@@ -806,12 +980,21 @@ def generate(template_path, flavour, repo="/repo", vacuity=False, rules=None, ba
         if n17 and b.id not in ("Graph::index", "Graph::index_val"):
             body = rx17.sub(lambda mm: "%s.index(&%s)" % (mm.group(1), mm.group(2)), body)
             stats["R17"] = stats.get("R17", 0) + n17
-        # R18: the set-exclusion filter closure handed to a traversal builder -> the shim filter_excl(&set)
-        rx18 = re.compile(r"\.\s*filter\(\s*&mut\s*\|\s*Edge\(\s*_\s*,\s*(\w+)\s*,\s*_\s*\)\s*\|\s*!\s*(\w+)\s*\.\s*contains\(\s*\1\s*\.\s*key\(\)\s*\)\s*\)")
-        n18 = len(rx18.findall(body))
-        if n18:
-            body = rx18.sub(lambda mm: ".filter_excl(&%s)" % mm.group(2), body)
-            stats["R18"] = stats.get("R18", 0) + n18
+        # R18: the set-exclusion filter closure handed to a traversal builder -> the shim filter_excl(&set) (the closure tests
+        # the edge's target) resp. filter_excl_src(&set) (it tests the edge's source)
+        rx18 = re.compile(r"\.\s*filter\(\s*&mut\s*\|\s*Edge\(\s*(\w+)\s*,\s*(\w+)\s*,\s*_\s*\)\s*\|\s*!\s*(\w+)\s*\.\s*contains\(\s*(\w+)\s*\.\s*key\(\)\s*\)\s*\)")
+
+        def rep18(mm):
+            u, v, st, x = mm.group(1), mm.group(2), mm.group(3), mm.group(4)
+            if x == v and v != "_" and u == "_":
+                return ".filter_excl(&%s)" % st
+            if x == u and u != "_" and v == "_":
+                return ".filter_excl_src(&%s)" % st
+            return mm.group(0)
+        body18 = rx18.sub(rep18, body)
+        if body18 != body:
+            stats["R18"] = stats.get("R18", 0) + len(rx18.findall(body))
+            body = body18
         # R14: `mut self` receiver (unsupported by Verus) -> `self` + `let mut slf = self;`
         if re.search(r"\(\s*mut\s+self\b", mask(sig)):
             sig = re.sub(r"\(\s*mut\s+self\b", "(self", sig, count=1)
@@ -847,7 +1030,7 @@ def generate(template_path, flavour, repo="/repo", vacuity=False, rules=None, ba
         placed = []   # (offset, text, slines, order)
         is_bare = bool(bare and b.id in bare)
         for sidx, (where, pat, slines) in enumerate([] if is_bare else b.splices):
-            txt = "\n" + "\n".join(slines) + "\n"
+            txt = "\n" + "\n".join((l + " /*@H*/") if l.strip() else l for l in slines) + "\n"
             pos = None
             try:
                 if where == "body-start":
@@ -862,6 +1045,18 @@ def generate(template_path, flavour, repo="/repo", vacuity=False, rules=None, ba
                         pos = loops[pat - 1]["body_close"]
                     else:
                         raise ExtractError("loop-end %d: no such loop" % pat)
+                elif where == "loop-start":
+                    if not (1 <= pat <= len(loops)):
+                        raise ExtractError("loop-start %d: no such loop" % pat)
+                    lp = loops[pat - 1]
+                    pos = lp["hdr_end"] + 1
+                    if lp["kw"] == "loop":
+                        # a for loop rewritten by R9: `loop { match itN.next(heap) { Some(x) => {` -- the body starts inside the arm
+                        mm7 = re.match(r"\s*match\s+it\d+\s*\.\s*next\s*\([^)]*\)\s*\{\s*Some\s*\(", m[pos:])
+                        if mm7:
+                            j7 = m.index("=>", pos + mm7.end())
+                            j7 = m.index("{", j7)
+                            pos = j7 + 1
                 elif where == "after-loop":
                     if not (1 <= pat <= len(loops)):
                         raise ExtractError("after-loop %d: no such loop" % pat)
@@ -881,7 +1076,7 @@ def generate(template_path, flavour, repo="/repo", vacuity=False, rules=None, ba
                     for alt in pats:
                         ms.extend(re.compile(pat_to_regex(alt)).finditer(body))
                     ms.sort(key=lambda x: x.start())
-                    if len(ms) != total:
+                    if len(ms) != total and not (len(ms) > total and not isinstance(pat, tuple)):
                         raise ExtractError("anchor `%s` matched %d times (expected %d)" % ("` | `".join(pats), len(ms), total))
                     mt = ms[nth - 1]
                     if where == "before":
@@ -906,6 +1101,11 @@ def generate(template_path, flavour, repo="/repo", vacuity=False, rules=None, ba
             except ExtractError as e:
                 lost.append((sidx, str(e)))
                 continue
+            if rscoped:
+                sl2 = apply_scoped(slines, rscoped, loop_chain(loops, pos), rmap)
+                if sl2 != slines:
+                    slines = sl2
+                    txt = "\n" + "\n".join((l + " /*@H*/") if l.strip() else l for l in slines) + "\n"
             placed.append((pos, txt, slines, sidx))
         lost_loops = [n for n in b.loops if n < 1 or n > len(loops)]
         dropped_names = set()
@@ -934,6 +1134,8 @@ def generate(template_path, flavour, repo="/repo", vacuity=False, rules=None, ba
             stats["R10-splice"] = stats.get("R10-splice", 0) + 1
         for idx, lp in ([] if is_bare else pending_loop_specs):
             lines_ = b.loops[idx]
+            if rscoped:
+                lines_ = apply_scoped(lines_, rscoped, [k for k in loop_chain(loops, lp["start"]) if k != idx], rmap)
             if dropped_names:
                 rx_d = re.compile(r"\b(%s)\b" % "|".join(map(re.escape, dropped_names)))
                 lines_ = [l for l in lines_ if not rx_d.search(l)]
@@ -986,7 +1188,7 @@ def generate(template_path, flavour, repo="/repo", vacuity=False, rules=None, ba
             out.append("    }")
         end = len(out)
         g.linemap.append((start, end, b.id))
-        g.fns.append(dict(id=b.id, file=b.file, name=b.name, line_start=ex["line_start"], line_end=ex["line_end"],
+        g.fns.append(dict(id=b.id, file=b.file, name=b.name, line_start=ex["line_start"], line_end=ex["line_end"], text=real_text, renamed=rmap,
                           hash=h, props=b.props, rules=stats, novac=b.novac or b.extern_body, hints_lost=hints_lost, guards=guards, heap=b.heap,
                           gen_start=start, gen_end=end, has_ensures=any(re.match(r"\s*ensures\b", s) for s in b.spec)))
         for k, v in stats.items():
